@@ -31,14 +31,31 @@ MANIFEST = dict(
           "called on [A|b] systems with dependent rows next to Eigen's fullPivLu (same call): the printed factors are checked "
           "to be a factorisation, the model's assembly is compared with the library's output, and the row spaces of [A|b] and "
           "of the library's [A'|b'] are compared by exact elimination over Q. The step-length kernel (make_smax, s0*smax, "
-          "s *= beta) is modelled from translated expressions: u > 0 and s0 < 1 imply u + s*du > 0. The Newton iteration as "
-          "a whole, that Eigen's fullPivLu returns a factorisation, and floating-point rounding are searched, not proved."),
-    note=("Coq kernel; translator (5 decision kernels + 9 step-length kernels of solver.cpp, 12 integer kernels of util.cpp); extraction with ExtrOcamlZBigInt (Zarith); harness "
+          "s *= beta) is modelled from translated expressions: u > 0 and s0 < 1 imply u + s*du > 0. The Newton iteration of "
+          "solve_with_inequality is inside the model (C04_Iter_Defs.v): program_t::update as a state transformer with its guards, the "
+          "reduced KKT system [[Q - G'diag(u/(Gx-h))G, A'],[A,0]] and its right-hand side as the code assembles them, the "
+          "back-substitution for du, both backtracking stages as fuelled loops with the translated tests, the five exits, the state "
+          "update and the status through done(); the LDLT solve is an oracle answer. Proved for every program / state / answer: the "
+          "elimination of du is correct (reduced system + back-substitution = full primal-dual Newton system), rprim and rdual "
+          "contract exactly by 1 - s along such a direction, every iterate the loop can reach keeps G x - h < 0 strictly and u > 0 "
+          "(hence eta > 0), stage 2 exits only with residual <= (1 - alpha s) r0 or by exhaustion, the revert branch restores every "
+          "field update() owns, `converged` only through done() on the stored numbers; the stale trial-point numbers after an "
+          "exhausted stage 2 with residual <= r0 are a refuted statement with a witness. Per run the values hook "
+          "(ev_program_start / ev_program_iter) records every pass of ~225 solves with solver parameters across their domains: the "
+          "recorded (dx, dv) must solve the model's system whenever the matrix is regular, du / step lengths / stage counters / exit "
+          "kind / new state / eta / residual / status are recomputed by the extracted model on the implementation's numbers "
+          "(bit-exact mirrors for scalar code, decisions within rounding of a threshold are counted as ambiguous), and the proved "
+          "properties are evaluated on the implementation's numbers by independent exact code. That the LDLT answer solves the "
+          "system (it does not when Q - hessvar is singular: finding in notes/C04.md), that Eigen's fullPivLu returns a "
+          "factorisation, and floating-point rounding are searched, not proved."),
+    note=("Coq kernel; translator (5 decision kernels + 9 step-length kernels + 14 iteration kernels and 5 text pins of solver.cpp, 12 integer kernels of util.cpp); extraction with ExtrOcamlZBigInt (Zarith) + Z.gcd realised by Zarith's gcd; the guarded values hook ev_program_start/ev_program_iter of /repo (NANO_VERIF); harness "
           "against the library built from the working tree + OCaml driver + exact rational oracle in tools/checks/c04.py; "
           "square roots are not modelled (norm divisors are inputs checked against the exact squares); the LU factorisation "
           "inside program::reduce is an oracle answer whose validity is checked per run on the factors Eigen returns (exactly "
           "when they are exact in doubles, within 1e-12 otherwise); make_smax is in an anonymous namespace: its expressions are "
-          "translated, its effect is observed only as u > 0 on every returned state."),
+          "translated, its effect is observed as u > 0 on every returned state and on every iterate of the ITER stage, and its value "
+          "s0*make_smax bit-exactly through the hook. The iteration model is exact: the LDLT answer is an oracle validated per pass; "
+          "vector expressions are compared within 1e-11 of the summed magnitudes; the two `all finite` tests are oracle bits."),
     technique="Coq proof over Q of a translated+extracted model, differential correspondence within rounding tolerance, "
               "direct property oracles on the implementation (constructed optima, exact rational decision)",
     design="DESIGN.md section 2, C04")
@@ -48,6 +65,11 @@ VARIANTS = ["rel"]
 CHUNKS = {"quick": (1, 5000), "thorough": (40, 10000)}   # (chunks, programs per chunk); the chunk id perturbs the seed
 REDUCE_COUNTERS = ("reduce_systems_checked", "reduce_exact_factorisations", "reduce_rows_removed", "reduce_full_rank", "reduce_empty",
                    "reduce_inconsistent", "reduce_exact_rowspace")
+ITER_CHUNKS = {"quick": (1, 250), "thorough": (8, 1000)}   # ITER stage: (chunks, generator draws per chunk)
+ITER_COUNTERS = ("solves", "events", "systems_solved", "systems_inaccurate_singular_block", "systems_regular", "full_passes_compared",
+                 "exact_stage_counts", "bit_exact_mirrors", "status_decisions", "ambiguous", "skipped", "starts_rejected", "underflow_events",
+                 "boundary_events", "over_budget_events", "propfails", "strict_feasibility_at_rounding", "stage2_exhausted_reverted",
+                 "stage2_exhausted_stale", "starts", "finals")
 KF_STALE = "objective-stale-trial-point"
 KF_HUGE = "feasibility-at-rounding-level"
 
@@ -421,6 +443,14 @@ def _replay(path):
         if bad:
             print("VIOLATION property=C04 replay=%s" % path)
         return 1 if bad else 0
+    if d.get("iter") and drv:
+        text, par = d["iter"]
+        rc, out = vlib.sh("%s iterreplay %s %s | %s" % (exe, shlex.quote(text), shlex.quote(par), drv), timeout=600)
+        bad = [l for l in out.split("\n") if l.startswith(("MISMATCH", "PROPFAIL"))]
+        print("\n".join(l[:1500] for l in bad[:10]) or "replay: no failure")
+        if bad:
+            print("VIOLATION property=C04 replay=%s" % path)
+        return 1 if bad else 0
     text = d.get("program")
     if text:
         bad = _run_text(exe, drv, text)
@@ -645,6 +675,92 @@ def run(tier, replay=None):
                                        "case": case[:4000], "meaning": meaning,
                                        "broken_obligation": None if cres["ok"] else cres.get("broken")},
                     no_input=not (impl_fail or exact_fail or prop or rprop))
+
+    # ---- ITER stage: the Newton iteration observed through the values hook against the extracted iteration model ------------
+    iter_counts = collections.Counter()
+    iter_exits = collections.Counter()
+    iter_amb = collections.Counter()
+    iter_worst = 0.0
+    iter_bad = []          # (chunk, line)
+    iter_isolve = {}       # (chunk, id) -> (program text, par)
+    iter_samples = []
+    ichunks, icases = ITER_CHUNKS.get(tier, ITER_CHUNKS["quick"])
+    icmd_of = lambda ch: "VERIF_SEED=%d %s iter %s %d %d" % (r.seed, exe, tier, icases, ch)
+    for ch in range(ichunks if drv else 0):
+        rc, out = vlib.sh([exe, "iter", tier, str(icases), str(ch)], timeout=3000, env={"VERIF_SEED": str(r.seed)})
+        lines = [l for l in out.split("\n") if l]
+        del out
+        if rc != 0 or not any(l.startswith("DONE ") for l in lines):
+            r.violation("iter-crash", {"kind": "implementation-crash / exception in the harness (ITER stage)", "exit": rc,
+                                       "last_operations": [l[:1500] for l in lines if l.startswith("ISOLVE ")][-3:],
+                                       "tail": "\n".join(lines[-6:])[-1500:], "replay_cmd": icmd_of(ch)}, fingerprint="crash")
+        for l in lines:
+            if l.startswith("FAIL "):
+                iter_bad.append((ch, "PROPFAIL " + l[5:]))
+        rc2, mout = vlib.sh([drv], input="\n".join(l for l in lines if l.startswith(("CONST ", "IPROG ", "ITER ", "IFINAL "))) + "\n", timeout=3000)
+        got = False
+        cm = []
+        for l in mout.split("\n"):
+            if l.startswith(("MISMATCH", "PROPFAIL")):
+                cm.append(l)
+            elif l.startswith("ITER-DONE"):
+                got = True
+                dd = _kv(l)
+                for k in ITER_COUNTERS:
+                    iter_counts[k] += int(dd.get(k, 0))
+                iter_exits.update(_hist(dd.get("exits", "")))
+                iter_amb.update(_hist(dd.get("ambiguous_kinds", "")))
+                iter_worst = max(iter_worst, float(dd.get("worst_system_ratio", 0)))
+        if rc2 != 0 or not got:
+            r.violation("iter-driver", {"kind": "model driver failed (ITER stage)", "out": mout[-2000:], "replay_cmd": icmd_of(ch) + " | " + drv},
+                        no_input=True)
+        if cm:
+            ids = set(m.group(1) for m in (re.search(r"id=(\d+)", x) for x in cm) if m)
+            for l in lines:
+                if l.startswith("ISOLVE ") and l.split(" ", 2)[1] in ids:
+                    head, text = l.split(" :: ", 1)
+                    iter_isolve[(ch, l.split(" ", 2)[1])] = (text, head.split("par=", 1)[1].strip())
+        if not iter_samples:
+            iter_samples = [l[:600] for l in lines if l.startswith("ITER ")][:2]
+        iter_bad += [(ch, l) for l in cm]
+        del lines
+    iprop = [(ch, l) for ch, l in iter_bad if l.startswith("PROPFAIL")]
+    icorr = [(ch, l) for ch, l in iter_bad if l.startswith("MISMATCH")]
+
+    def iter_payload(ch, l):
+        m = re.search(r"id=(\d+)(?:/(\w+))?", l)
+        out = {"detail": l[:1500]}
+        if m and (ch, m.group(1)) in iter_isolve:
+            text, par = iter_isolve[(ch, m.group(1))]
+            out.update({"program": text, "solver_parameters(s0,miu,alpha,beta,epsilon,epsilon0,max_iters,max_lsearch_iters)": par,
+                        "pass": m.group(2), "iter": [text, par],
+                        "replay_cmd": "%s iterreplay %s %s | %s" % (exe, shlex.quote(text), shlex.quote(par), drv)})
+        else:
+            out["replay_cmd"] = icmd_of(ch) + " | " + str(drv)
+        return out
+    seeni = set()
+    for ch, l in iprop:
+        what = l.split()[1]
+        if what in seeni or len(seeni) >= 4:
+            continue
+        seeni.add(what)
+        pl = iter_payload(ch, l)
+        pl["kind"] = ("a proved property of the Newton iteration fails on the implementation's own numbers (one pass of the loop of "
+                      "solve_with_inequality, hexadecimal doubles): " + what)
+        r.violation(what, pl)
+    seenc = set()
+    for ch, l in icorr:
+        what = re.sub(r"\[\d+\]", "", l.split()[1])
+        if what in seenc or len(seenc) >= 4:
+            continue
+        seenc.add(what)
+        pl = iter_payload(ch, l)
+        pl["kind"] = "model/implementation disagreement in the Newton iteration (solve_with_inequality / program_t::update / program_t::solve)"
+        pl["meaning"] = ("one pass of the loop, recomputed by the proved iteration model (C04_Iter_Defs.iter_core) on the implementation's own "
+                         "numbers, gives a different " + what[5:] + "; decisions within rounding of their thresholds are not compared")
+        pl["broken_obligation"] = None if cres["ok"] else cres.get("broken")
+        r.violation("corr-%s" % what, pl, no_input=not (impl_fail or exact_fail or prop or rprop or iprop))
+
     for ch, l in genbad[:1]:
         r.violation("generator", {"kind": "generator defect: constructed optimum is not an exact KKT point (defect of the check)",
                                   "detail": l, "case": byid.get((ch, re.search(r"id=(\S+)", l).group(1)), "")[:4000]}, no_input=True)
@@ -671,7 +787,11 @@ def run(tier, replay=None):
                          "9 step-length kernels instantiated at numerators over a common denominator, the quotient -u(i)/du(i) is an atom "
                          "pinned by its text; 12 integer kernels of src/program/util.cpp: early-return test, inner dimension, block "
                          "arguments, stacked width, split column)",
-                         "extraction: ExtrOcamlBasic + ExtrOcamlZBigInt (Z/positive -> Zarith)",
+                         "extraction: ExtrOcamlBasic + ExtrOcamlZBigInt (Z/positive -> Zarith); Z.gcd -> Big_int_Z.gcd_big_int (only C04_Iter_Defs.qnorm)",
+                         "14 iteration kernels (guards of update, loop starts/conditions/exhaustion tests, stage-1/stage-2/revert/exit-5 tests; the "
+                         "stage-2 bound `(1.0 - alpha * s) * r0` and the trial point are atoms pinned by their text) + 5 text pins; the values hook "
+                         "ev_program_start / ev_program_iter of /repo (layout checked per event); the LDLT solve as an oracle answer validated per pass "
+                         "(required to solve the model's system when the matrix is regular by an exact LDL' over Q, counted otherwise)",
                          "Eigen's fullPivLu as an oracle: the factors printed by the harness (same call as util.cpp) are checked to be a "
                          "factorisation on every system (lu_valid_b exactly / 1e-12); the matrix product of the assembly is modelled entry by "
                          "entry (the order of the floating-point summation is not)",
@@ -699,12 +819,22 @@ def run(tier, replay=None):
     cov["returned_states_u_checked"] = drv_counts.get("returned_states_u_checked", 0)
     cov["exact_decisions"] = dict(exact_verdicts)
     cov["exact_oracle_selftest"] = dict(selftest)
-    cov["mismatches"] = len(corr)
-    cov["impl_direct_failures"] = len(impl_fail) + len(exact_fail) + len(prop) + len(rprop)
+    cov["iteration_model"] = dict(iter_counts)
+    cov["iteration_exit_histogram"] = {{"0": "continue", "1": "unstable system", "2": "stage 1 exhausted", "3": "stage 2 exhausted",
+                                        "4": "non-finite", "5": "precise convergence"}.get(k, k): v for k, v in iter_exits.items()}
+    cov["iteration_ambiguous_decisions"] = dict(iter_amb)
+    cov["iteration_worst_system_residual_singular_block"] = iter_worst
+    cov["iteration_samples"] = iter_samples
+    cov["mismatches"] = len(corr) + len(icorr)
+    cov["impl_direct_failures"] = len(impl_fail) + len(exact_fail) + len(prop) + len(rprop) + len(iprop)
     cov["defect_candidates"] = candidates
     cov["samples"] = samples
     cov["unproved_clauses_searched"] = [
         "the Newton iteration / line search actually reaches a state that passes done() (convergence itself; not claimed by the property)",
+        "the LDLT answer (dx, dv) solves the reduced KKT system (hypothesis of C04_iter_elimination / _contracts): checked per pass of the ITER "
+        "stage; it fails when Q - hessvar is singular (Eigen's LDLT zero pivot, info() ignored: defect candidate in notes/C04.md)",
+        "floating-point evaluation of update / hessvar / du / the trial points agrees with the exact iteration model (1e-11 of the summed "
+        "magnitudes; stage counters and exit kinds exactly unless within rounding of a threshold)",
         "floating-point evaluation of update()/feasible()/done() agrees with the exact model (compared per state within 1e-9 of the summed terms + 1e-12)",
         "Eigen's fullPivLu returns a factorisation P M^T Q = L U with the numerical rank equal to the exact rank of [A|b] (hypothesis "
         "lu_valid of the reduce theorems): checked on every REDUCE system; the exact rank is recomputed by elimination over Q",
